@@ -1,4 +1,4 @@
-//! Probe (reported by two seeding agents on the unchanged tree): extract_core when the violated assumption is
+//! F23 (C05; reported by two seeding sub-agents on the unchanged tree, confirmed here): extract_core when the violated assumption is
 //! already false at the root.
 use pumpkin_solver::predicate;
 use pumpkin_solver::results::SatisfactionResultUnderAssumptions;
